@@ -28,7 +28,9 @@ JOURNAL_SLOTS, JOURNAL_SLOT_SIZE = 4096, 64 << 10      # harness/journal.go
 
 
 def looks_fatal(rc, stderr):
-    return rc is not None and rc != 0 and (rc < 0 or any(k in (stderr or "") for k in FATAL_MARKS))
+    # (exit status 2 is what the Go runtime uses for fatal errors; the text may be lost when the process dies while its own
+    # output is being captured - the verdict is the reproduction of a single call alone, never this test)
+    return rc is not None and rc != 0 and (rc < 0 or rc == 2 or any(k in (stderr or "") for k in FATAL_MARKS))
 
 
 HANG_MARK = "has not returned after"       # harness/journal.go (exit 5): one call pending for two minutes in a bulk stage
